@@ -38,6 +38,13 @@ CHECKS = {
         note="one listed finding: the check's evaluator is lazier than compiled code (discarded argument expressions)",
         technique="runtime non-interference monitoring over argument pairs (differential executions under the consensus evaluator)",
     ),
+    "C10": dict(
+        category="exploration",
+        text="Fault-injection runtime monitor on the compiler front door: every generated well-scoped program (twin compiles) gets one scoping defect at a time (unbound name at a random variable position, duplicate function, inline cycle of length 1..4, cyclic or duplicate assign bindings); each defective program is compiled under a per-case watchdog in crash-isolated shards and must be rejected with an error that names the defect; compiled output, a panic, a dead process or a confirmed non-termination is a violation.",
+        design_ref="DESIGN.md §4 C10",
+        note="listed findings: unbound names / inline self calls in code discarded before code generation, duplicate definitions nothing reaches, two misleading messages",
+        technique="runtime monitoring with injected scoping faults (differential against the repaired twin), watchdog + crash isolation",
+    ),
     "C18": dict(
         category="exploration",
         text="Runtime monitor at two boundaries: the dependency listing of the real `run -M` / Python check_dependencies is compared with the files a real compilation of the same generated include graph actually opens (strace openat log), for random graphs, shadowed duplicates, embed-file kinds, dialects and search-path orders.",
